@@ -40,7 +40,7 @@ SIG_CLASSES = ["length", "padded", "zero-at-48", "flag-grid", "non-subgroup", "t
 
 def required_classes(tier):
     out = ["key:" + c for c in KEY_CLASSES] + ["sig:" + c for c in SIG_CLASSES]
-    out += ["sentinels:before", "sentinels:after", "soak:distinct-keys", "key:valid-keys-that-cancel", "list-shapes", "key:valid-plus-small-order", "key:identity-among-honest", "key:cancelling-set", "ep:KeyValidate", "ep:Verify", "ep:PopVerify", "ep:AggregateVerify", "ep:FastAggregateVerify", "valid-call-reaching-pairing", "list-position"]
+    out += ["typed-variants", "sentinels:before", "sentinels:after", "soak:distinct-keys", "key:valid-keys-that-cancel", "list-shapes", "key:valid-plus-small-order", "key:identity-among-honest", "key:cancelling-set", "ep:KeyValidate", "ep:Verify", "ep:PopVerify", "ep:AggregateVerify", "ep:FastAggregateVerify", "valid-call-reaching-pairing", "list-position"]
     return out
 
 
@@ -280,6 +280,17 @@ def run(rec):
                 call(Pp.PopVerify, pk, s)
                 call(S.AggregateVerify, [pk, pk2], [msg, msg2], s)
                 call(Pp.FastAggregateVerify, [pk, pk2], msg, s)
+        # ---- the same byte strings as a bytes SUBCLASS, and key / message sequences as tuples (judged by value by the same monitors)
+        from .common import BytesSub
+        rec.case("typed-variants", ("typed", suite), sample={"input": "bytes subclass for key / message / signature; tuples for the key and message lists"})
+        call(S.Verify, BytesSub(pk), BytesSub(msg), BytesSub(sig))
+        call(S.KeyValidate, BytesSub(pk))
+        call(S.KeyValidate, BytesSub(Z.enc_g1(None)))
+        call(Pp.PopVerify, BytesSub(pk), BytesSub(prf))
+        call(S.AggregateVerify, (pk, pk2), (msg, msg2), agg2)
+        call(S.AggregateVerify, (BytesSub(pk), pk2), [BytesSub(msg), msg2], BytesSub(agg2))
+        call(Pp.FastAggregateVerify, (pk, pk2), msg, MB.aggregate([sig_pop, bmon.m_sign("pop", sk2, msg)]))
+        call(S.Verify, BytesSub(b"\x00" * 48), msg, sig)
         # ---- odd shapes of the key / message lists (must be answered with a bool, never raised)
         rec.case("list-shapes", ("shapes", suite), sample={"input": "empty lists, more keys than messages and vice versa, repeated messages"})
         for Sx in (S, suites["basic"], suites["aug"], Pp):
